@@ -138,6 +138,7 @@ pub fn check_history(ctx: &RunCtx) -> RunStats {
         let r = &ctx.recs[i];
         if !r.accepted.load(ORD) { continue; }
         let runs = r.runs.load(ORD);
+        if ctx.prog.panics && runs <= 1 && object_panicked(ctx, d.obj) { continue; }   // whatever was queued behind the panic is dead with the queue
         let must = matches!(d.kind, Kind::Desync | Kind::Sync | Kind::FutDesync | Kind::After | Kind::PipeItem) || (d.kind == Kind::TrySync && r.outcome.load(ORD) == 1);
         if must && runs != 1 {
             let prop = match d.kind { Kind::Sync => "C04", Kind::TrySync => "C09", Kind::PipeItem => "C11", _ => "C03" };
